@@ -67,6 +67,12 @@ def generate(rnd, tier):
     trees = [gen.tree(rnd, cgr, "<start>", rnd.randint(2, 6), rt.min_depths(cgr), bias=0.8) for _ in range(4)]
     lits = fml.sample_lits(cgr, trees)
     tname, f = solvergen.template(rnd, cgr, lits, name if not start else None, prefer=start)
+    if chance(rnd, 0.25):
+        # two independent templates side by side: what one conjunct makes the solver do to the tree (insert, embed,
+        # expand) must not invalidate what was already established for the other
+        n2, f2 = solvergen.template(rnd, cgr, lits, name if not start else None, prefer=start)
+        f = [pick(rnd, ["and", "and", "and", "or"]), solvergen.rename_bound(f, "a"), solvergen.rename_bound(f2, "b")]
+        tname = "conj(%s,%s)" % (tname, n2)
     st = solvergen.settings(rnd)
     return {"grammar": g, "gname": name, "template": tname, "formula": f, "settings": st, "start_symbol": start,
             "n": rnd.randint(2, MAX_SOLUTIONS), "rseed": rnd.randint(0, 10 ** 6)}
